@@ -6,6 +6,7 @@
 #include "pv_store.hpp"
 #include "pv_model.hpp"
 #include "pv_container.hpp"
+#include "pv_algebra.hpp"
 #include <boost/mpi.hpp>
 
 static json g_current;
@@ -32,6 +33,8 @@ int main(int argc, char** argv) {
         else if (kind == "store") pv::run_store(sc);
         else if (kind == "model") pv::run_model(sc);
         else if (kind == "container4") pv::run_container(sc);
+        else if (kind == "algebra") pv::run_algebra(sc);
+        else if (kind == "nsz") pv::run_nsz(sc);
         else pv::emit({{"e", "Error"}, {"id", sc.value("id", json())}, {"what", "unknown kind"}});
         pv::emit({{"e", "Done"}, {"id", sc.value("id", json())}});
     }
